@@ -25,7 +25,7 @@ import (
 	"verifharness/shapes"
 )
 
-func main() { Main("C02", check, exprgen.Gen, sdfgen.Gen, stateGen) }
+func main() { Main("C02", check, stateGen, exprgen.Gen, sdfgen.Gen) }
 
 const imp = "From Sdfx Require Import Sdf.C02Corr.\nOpen Scope float_scope."
 
